@@ -193,10 +193,7 @@ theorem C06_with_path_readback (e : Env) (u : Url) (t : Str) (ht : PyStr t) (hn 
     C06_path_quoter_slash e.b r ht
   have hrb : uq e Gen.PATH_UNQUOTER (q e Gen.PATH_QUOTER (47 :: r)) = 47 :: r :=
     C06_readback_path e.b _ ht hn
-  have hp1 : (if !u.netloc.isEmpty then
-        (if mem 46 (q e Gen.PATH_QUOTER (47 :: r)) then normalizePath (q e Gen.PATH_QUOTER (47 :: r))
-         else q e Gen.PATH_QUOTER (47 :: r))
-      else q e Gen.PATH_QUOTER (47 :: r)) = q e Gen.PATH_QUOTER (47 :: r) := by
+  have hp1 : (!u.netloc.isEmpty && mem 46 (q e Gen.PATH_QUOTER (47 :: r))) = false := by
     rcases hnet with h | h
     · simp [h]
     · have : mem 46 (q e Gen.PATH_QUOTER (47 :: r)) = false := by
@@ -204,8 +201,8 @@ theorem C06_with_path_readback (e : Env) (u : Url) (t : Str) (ht : PyStr t) (hn 
         rw [Yarl.ParseLemmas.mem_eq]; simpa using h'
       simp [this]
   have hpath : (withPath e u (47 :: r) false false false).path = q e Gen.PATH_QUOTER (47 :: r) := by
-    unfold withPath
-    simp only [Bool.not_false, if_true, hp1]
+    rw [withPath_eq, hp1]
+    simp only [Bool.false_eq_true, if_false]
     rw [hq]
     rfl
   unfold pathDecoded
@@ -380,6 +377,7 @@ theorem DecLemmas.build_shape (e : Env) (a : BuildArgs) (v : Url) (h : build e a
   have h := ite_err' (ite_err' (ite_err' (ite_err' (ite_err' h))))
   obtain ⟨qs, _, h⟩ := bind_ok h
   simp only [henc, Bool.false_eq_true, if_false] at h
+  obtain ⟨sc, _, h⟩ := bind_ok h   -- the lowered scheme (fix e21485a)
   obtain ⟨nl, _, h⟩ := bind_ok h
   obtain ⟨p, hp, h⟩ := bind_ok h
   cases h
